@@ -7,6 +7,8 @@
 #include "MetaOptimizer.h"
 #include "../../App/ApplicationTools.h"
 
+#include <cmath>
+
 using namespace bpp;
 using namespace std;
 
@@ -107,7 +109,8 @@ void MetaOptimizer::doInit(const ParameterList& parameters)
   // Reset counter:
   stepCount_ = 1;
   // Recompute step if precision has changed:
-  precisionStep_ = (log10(getStopCondition()->getTolerance()) - log10(initialValue_)) / n_;
+  // (the schedule goes from the magnitude of the initial value down to the tolerance)
+  precisionStep_ = (log10(getStopCondition()->getTolerance()) - log10(std::abs(initialValue_))) / n_;
 }
 
 /**************************************************************************/
@@ -118,9 +121,9 @@ double MetaOptimizer::doStep()
 
   int tolTest = 0;
   double tol = getStopCondition()->getTolerance();
-  if (stepCount_ <= n_)
+  if (stepCount_ <= n_ && std::abs(initialValue_) > 0)
   {
-    tol = initialValue_ * pow(10, stepCount_ * precisionStep_);
+    tol = std::abs(initialValue_) * pow(10, stepCount_ * precisionStep_);
   }
 
   for (unsigned int i = 0; i < optDesc_->getNumberOfOptimizers(); ++i)
